@@ -90,11 +90,23 @@ def one_case(ctx: Ctx, stream: str, i: int) -> None:
     comps = [jnp.asarray(np.array([rng.choice([-3, -2, -1, 1, 2, 3, 4, 5]) + 7 * c for _ in range(n)],
                                   dtype=np.float32).reshape(shape)) for c in range(len(kind))]
     x = cls(*comps)
-    R1, R2 = QURotationOperator(jnp.asarray(a1), st), QURotationOperator(jnp.asarray(a2), st)
+    # how the caller hands the angles over: a JAX array, a (mutable) NumPy array, or Python / NumPy scalars
+    given = rng.choice(['jax', 'jax', 'numpy', 'numpy', 'scalar'])
+    if given == 'scalar':
+        a1, a2 = a1.ravel()[:1].reshape(()), a2.ravel()[:1].reshape(())
+    a1_orig, a2_orig = a1.copy(), a2.copy()
+
+    def give(a):
+        if given == 'jax':
+            return jnp.asarray(a)
+        if given == 'numpy':
+            return a            # the caller's own array: nothing may write into it
+        return float(a) if rng.random() < 0.5 else np.float32(a)
+    R1, R2 = QURotationOperator(give(a1), st), QURotationOperator(give(a2), st)
     H, P = HWPOperator(st), LinearPolarizerOperator(st)
 
     # ---- correspondence: operator application, sample by sample ----------------------------------
-    full_a1 = np.broadcast_to(a1, shape).ravel()
+    full_a1 = np.broadcast_to(a1_orig, shape).ravel()
     for name, op in [('hwp', H), ('rot', R1), ('rotT', R1.T)]:
         st_, y = safe(op.mv, x)
         if st_ != 'ok':
@@ -130,7 +142,7 @@ def one_case(ctx: Ctx, stream: str, i: int) -> None:
         ctx.fail(stream, i, f'mv-raises-polarizer-{st_}', f'polarizer.mv raised {st_}: {y}', {'kind': kind})
 
     # ---- oracle on the implementation: Mueller matrices, rules, factories ---------------------------
-    fa1, fa2 = np.broadcast_to(a1, shape).ravel().astype(np.float64), np.broadcast_to(a2, shape).ravel().astype(np.float64)
+    fa1, fa2 = np.broadcast_to(a1_orig, shape).ravel().astype(np.float64), np.broadcast_to(a2_orig, shape).ravel().astype(np.float64)
 
     def expect(op, mats, label):
         st2, blocks = safe(dense_per_sample, op, kind, n)
@@ -171,15 +183,21 @@ def one_case(ctx: Ctx, stream: str, i: int) -> None:
             ctx.fail(stream, i, f'reduce-raises:{label}', f'reduce() of {label} raised {st3}', {'kind': kind})
         else:
             expect(red, mats, label + ':reduced')
+            # reduce() is a pure function of the operator: the unreduced operator still denotes the same matrix and
+            # reducing it again gives the same map
+            expect(e, mats, label + ':unreduced-after-reduce')
+            st3b, red2 = safe(e.reduce)
+            if st3b == 'ok':
+                expect(red2, mats, label + ':reduced-again')
         ctx.case(f'chain:{label}:{kind}:{a1.tolist()}:{a2.tolist()}', True, sample=None)
         ctx.count('chain:' + label)
     # factories
     for label, mk, mats in [
-        ('HWP.create', lambda: HWPOperator.create(shape, jnp.float32, kind, angles=jnp.asarray(a1)),
+        ('HWP.create', lambda: HWPOperator.create(shape, jnp.float32, kind, angles=give(a1)),
          [rot1[t].T @ hw @ rot1[t] for t in range(n)]),
-        ('Polarizer.create', lambda: LinearPolarizerOperator.create(shape, jnp.float32, kind, angles=jnp.asarray(a1)),
+        ('Polarizer.create', lambda: LinearPolarizerOperator.create(shape, jnp.float32, kind, angles=give(a1)),
          [pol_row(kind) @ rot1[t] for t in range(n)]),
-        ('QURotation.create', lambda: QURotationOperator.create(shape, jnp.float32, kind, angles=jnp.asarray(a1)), rot1),
+        ('QURotation.create', lambda: QURotationOperator.create(shape, jnp.float32, kind, angles=give(a1)), rot1),
     ]:
         st4, op = safe(mk)
         if st4 != 'ok':
@@ -189,10 +207,18 @@ def one_case(ctx: Ctx, stream: str, i: int) -> None:
         st5, red = safe(op.reduce)
         if st5 == 'ok':
             expect(red, mats, label + ':reduced')
+            expect(op, mats, label + ':unreduced-after-reduce')
+            st6, red2 = safe(op.reduce)
+            if st6 == 'ok':
+                expect(red2, mats, label + ':reduced-again')
         else:
             ctx.fail(stream, i, f'reduce-raises:{label}', f'reduce() of {label} raised {st5}', {'kind': kind})
         ctx.case(f'factory:{label}:{kind}:{a1.tolist()}', True, sample=None)
+    if not (np.array_equal(a1, a1_orig) and np.array_equal(a2, a2_orig)):
+        ctx.fail(stream, i, 'caller-angles-modified', 'the angle array passed by the caller was written to',
+                 {'kind': kind, 'given': given, 'before': a1_orig.tolist(), 'after': a1.tolist()})
     ctx.count('kind:' + kind)
+    ctx.count('angles-given-as:' + given)
 
 
 def run(ctx: Ctx) -> None:
